@@ -63,6 +63,9 @@ Definition E_FILE_NOT_FOUND : Z := 53.
 
 Inductive smode := SA | SB | SP.
 Inductive file := FMissing | FPlain (code : list Z) | FProt (code : list Z).
+(* FIELD widths: they fit the buffer / the second variable starts at the end of the buffer and is short (reaches
+   the first program line only) / the variables after the first cover the whole code area *)
+Inductive fwidth := FFit | FOverSmall | FOverAll.
 
 Inductive op :=
 | OList | OLlist                       (* list_ / llist_ -> Program.list_lines *)
@@ -81,7 +84,12 @@ Inductive op :=
 | ODelete (rs : list Z)                (* delete_ of the lines with these codes *)
 | ORenum                               (* renum_ (prints "Undefined line" for line code 3) *)
 | ORead                                (* READ A$ : PRINT A$ (reads line code 2) *)
-| OEnterRun | OLeaveRun.               (* RUN/GOTO/CONT/handler entry ; END/STOP/error/return to the prompt *)
+| OEnterRun | OLeaveRun                (* RUN/GOTO/CONT/handler entry ; END/STOP/error/return to the prompt *)
+| OField (last : bool) (w : fwidth).   (* OPEN "R" on the highest / another file number, FIELD with these widths,
+                                          then PRINT / ASC / MID$ / INSTR of the fielded variables.  The FIELD
+                                          buffer of the highest file number ends exactly at the program code and
+                                          StringSpace.view reads descriptors >= code_start from the code, unguarded:
+                                          the only protection is that no such descriptor is ever created *)
 
 Definition plain (b : list Z) : obs := match b with [] => NoObs | _ => Plain b end.
 Definition cipher (b : list Z) : obs := match b with [] => NoObs | _ => Cipher b end.
@@ -207,6 +215,15 @@ Definition step (s : state) (o : op) : result :=
       else if memz 2 (prog s) then (s, Ok 0, Plain [2]) else (s, Err E_OUT_OF_DATA, NoObs)
   | OEnterRun => done (set_run s true)
   | OLeaveRun => done (set_run s false)
+  | OField last w =>
+      match w with
+      | FFit => done s
+      | FOverSmall =>
+          (s, Err field_overflow_err,
+           if field_bounded || negb last then NoObs else if memz 1 (prog s) then Plain [1] else NoObs)
+      | FOverAll =>
+          (s, Err field_overflow_err, if field_bounded || negb last then NoObs else plain (prog s))
+      end
   end.
 
 Definition st (r : result) : state := fst (fst r).
